@@ -319,7 +319,7 @@ def _phase_values(ctx, adt, roles, ty):
     if len(v0) != 1:
         raise FailClosed("multipart stream: initial phase value not found uniquely: %r" % (v0,))
     v0 = next(iter(v0))
-    if ty == "bool" and is_const(v0):
+    if is_const(v0):
         return v0, const(1 - v0[1])
     if is_agg(v0):
         other = [v["name"] for v in ctx.facts.adts[ty]["variants"] if v["name"] != v0[3]]
